@@ -79,10 +79,12 @@ def _rand_doc(rng, rank, adversarial=False, with_info=None):
     if has_info:
         info = {}
         extra = rng.sample(["backend", "world_size", "pg_count", "nccl_version"], rng.randint(0, 3))
+        if rng.random() < 0.4:
+            extra.append("pg_config")           # a nested object inside the metadata block (closing braces before / after the rank)
         names = extra + (["rank"] if rank is not None else [])
         rng.shuffle(names)
         for k in names:
-            info[k] = rank if k == "rank" else _rand_value(rng, 2)
+            info[k] = rank if k == "rank" else ([{"pg_name": "default", "pg_size": rng.randint(1, 64)}] if k == "pg_config" else _rand_value(rng, 2))
         items.append(("distributedInfo", info))
     items.append(("traceEvents", events))
     if adversarial:
@@ -136,6 +138,8 @@ def gen_cases(seed, tier, n):
             r0 = rng.choice([None, rng.randint(0, 7)])
             c = {"ranks": {}, "params": {"kind": kind, "doc": _rand_doc(rng, r0), "gz": rng.random() < 0.5,
                                          "updates": [rng.randint(0, 64) for _ in range(rng.randint(1, 2))]}, "case_id": i, "seed": seed}
+            if r0 is None and rng.random() < 0.6:
+                c["params"]["updates"][0] = 0       # rank 0 written into a file that records no rank: the field must appear
         else:
             nfiles = rng.randint(1, 4)
             mode = rng.choice(["unique", "unique", "unique", "dups", "nometa", "adversarial", "boundary"])
